@@ -282,7 +282,11 @@ def op_new_node(w, inputs, num_outputs, outputs, graph, name):
     g = None if graph is None else w.G(graph)
 
     def thunk():
-        n = ir.Node("", "Op", ins, num_outputs=num_outputs, outputs=outs, graph=g, name=name)
+        if name == "<bad attribute>":
+            # a constructor call that is rejected for a reason unrelated to its values (an attribute that is not an Attr)
+            n = ir.Node("", "Op", ins, attributes=[123], num_outputs=num_outputs, outputs=outs, graph=g, name="bad")
+        else:
+            n = ir.Node("", "Op", ins, num_outputs=num_outputs, outputs=outs, graph=g, name=name)
         w.add_node(n)
         return n
 
